@@ -246,3 +246,68 @@ def rule_json_decoder(progs, tier, name="CHARMAP(decode_escapes)"):
         else:
             res.ok({"fn": "json::light::decode_escapes", "bodies": n})
     return out
+
+
+# ------------------------------------------------------------------------------------------
+def _str_consts(f):
+    out = set()
+
+    def walk(x):
+        if isinstance(x, list):
+            if len(x) == 2 and x[0] == "k" and isinstance(x[1], dict):
+                if "str" in x[1]:
+                    out.add(x[1]["str"])
+                r = x[1].get("ref")
+                if isinstance(r, dict) and "str" in r:
+                    out.add(r["str"])
+            else:
+                for y in x:
+                    walk(y)
+
+    for b in f.blocks:
+        walk(b["s"])
+        walk(b["t"])
+    return out
+
+
+VERIFIED_JSON_WRITERS = {
+    "jq::escape::write_json_body_jq", "jq::escape::write_json_body_jq_ascii",
+    "jq::escape::write_json_body_yq", "jq::escape::write_json_body_yq_ascii",
+}
+
+
+def rule_writer_registry(progs, tier, entries=(r"^bin::jq_runner::", r"^bin::output::", r"^jq::stream::", r"^jq::value::OwnedValue::to_json"), exclude=r"^yaml::|^bin::yq_runner::|^jq::eval::yaml_|locate::|^jq::stream::stream_yaml|^json::light::stream_json_yaml", name="REACH(json writers)"):
+    """Who-may-escape rule for the jq print routes: every function that carries the JSON
+    escape-writer idiom (it emits both the `\\"` and the `\\\\` spelling) and is reachable from the jq
+    print entry points without passing through YAML-side / locate / YAML-output code must be one of
+    the writers verified by CHARMAP.  A new ad-hoc escaper on a print route is reported."""
+    out = []
+    import re as _re
+
+    for cfg, P in progs.items():
+        res = RuleResult(name, cfg)
+        out.append(res)
+        idiom = sorted(f.id for f in P.fns.values() if {'\\"', "\\\\"} <= _str_consts(f))
+        if len(idiom) < 4:
+            res.bad("%s:anchor" % name, "only %d functions with the escape-writer idiom found (anchor missing)" % len(idiom))
+            continue
+        roots = [fid for fid in P.fns if any(_re.search(e, fid) for e in entries) and P.fns[fid].kind != "closure"]
+        cg = P.callgraph()
+        seen = set(r for r in roots if not _re.search(exclude, r))
+        st = list(seen)
+        while st:
+            n = st.pop()
+            for m in cg.get(n, ()):
+                if m not in seen and not _re.search(exclude, m):
+                    seen.add(m)
+                    st.append(m)
+        reach_writers = [w for w in idiom if w in seen]
+        for w in reach_writers:
+            if w in VERIFIED_JSON_WRITERS:
+                res.ok({"writer": w, "verified_by": "CHARMAP(json writers)"})
+            else:
+                chain = P.call_path(roots, w)
+                res.bad("%s:%s" % (name, w), "%s carries the JSON escape-writer idiom, is reachable from the jq print routes (%s) and is not one of the verified writers %s" % (w, " -> ".join(chain[-4:]) if chain else "?", sorted(VERIFIED_JSON_WRITERS)), P.fns[w].loc())
+        res.note("functions with the escape idiom in the crate: %s" % idiom)
+        res.require_floor(3, "verified writers reachable from the print routes")
+    return out
